@@ -476,7 +476,7 @@ func c20StripPos(cl string) string {
 // caller's own slice) on every bound sequence up to a length, value and duration: the pairs tile the line in
 // ascending order and the slice that was passed in is bit for bit what it was (also after a second call).
 func c20BucketPairsJob(tier string) *SeqJob {
-	L := tierInt(tier, 4, 5)
+	L := tierInt(tier, 4, 6)
 	va, da := c03ValueAlphabet(), c03DurationAlphabet()
 	run := func(kind string, idx []int) (string, string) {
 		if kind == "value" {
